@@ -99,9 +99,17 @@ def run_crash(job):
     _final, _ledger, snaps = eng.baseline()
     bus = list(w.bus_log)
     viols, events_seen = [], 0
+    prev_durable = set()
     for s in snaps:
+        # the instant just before this commit: the database is still the previous image, the subscribers
+        # have been told bus[:bus_pre]
+        early = [b for b in bus[: s.bus_pre] if b[0] not in prev_durable]
+        if early:
+            viols.append({"kind": "subscriber-notified-before-the-commit", "events": early[:3], "sig": "bus-before-commit",
+                          "where": {"crash_before_commit": s.k, "step": s.step, "handling": s.action}})
         w.load(unpack(s.blob))
         vs, n = invariant(w, has_jumps, bus[: s.bus_len], {"crash_after_commit": s.k, "step": s.step, "handling": s.action})
+        prev_durable = {r[0] for r in w.conn.execute("SELECT sequence FROM events")}
         events_seen = max(events_seen, n)
         viols.extend(vs)
     return finish(job, viols, len(snaps), len(snaps), events_seen, [f"{s.step}.{s.k}:{s.action}" for s in snaps[:6]])
@@ -134,12 +142,44 @@ def run_fault(job):
                 if w._engine_active:
                     counter["n"] += 1
 
+            def count_commit(conn):
+                if w._engine_active:
+                    counter["c"] = counter.get("c", 0) + 1
+
             HOOKS.pre_execute = count
+            HOOKS.pre_commit = count_commit
             try:
                 ex.apply(st, action)
             finally:
                 HOOKS.pre_execute = None
+                HOOKS.pre_commit = None
             n_stmt = counter["n"]
+            n_commits = counter.get("c", 0)
+            for j in range(n_commits):
+                fired = {"n": 0, "done": False}
+
+                def fail_commit(conn, _j=j):
+                    if not w._engine_active or fired["done"]:
+                        return
+                    if fired["n"] == _j:
+                        fired["done"] = True
+                        raise sqlite3.OperationalError("disk I/O error")
+                    fired["n"] += 1
+
+                HOOKS.pre_commit = fail_commit
+                w.bus_log.clear()
+                try:
+                    ex.apply(st, action)
+                finally:
+                    HOOKS.pre_commit = None
+                if w.conn.in_transaction:
+                    w.conn.rollback()  # what closing the failed connection does
+                evals += 1
+                where = {"step": steps, "handling": action[0], "commit": j, "fault": "commit-fails"}
+                vs, _n = invariant(w, False, list(w.bus_log), where)
+                viols.extend(vs)
+                if len(points) < 6:
+                    points.append(f"{steps}:{action[0]}@commit{j}:fails")
             for i in range(n_stmt):
                 for exc_kind in ("locked", "runtime"):
                     fired = {"n": 0, "done": False}
